@@ -72,14 +72,16 @@ impl UCICommand {
             None => None,
         };
 
-        let name = value_idx
-            .map_or_else(
-                || args[name_idx + 1..].join(" "),
-                |end_idx| args[name_idx + 1..end_idx].join(" "),
-            )
-            .to_lowercase();
+        let name = match value_idx {
+            Some(end_idx) if end_idx > name_idx => args[name_idx + 1..end_idx].join(" "),
+            Some(_) => return Err("The name must come before the value in setoption!".to_string()),
+            None => args[name_idx + 1..].join(" "),
+        }
+        .to_lowercase();
 
-        assert!(!name.is_empty(), "Name should not be empty!");
+        if name.is_empty() {
+            return Err("No name provided to setoption!".to_string());
+        }
 
         Ok(Self::SetOption { name, value })
     }
